@@ -94,6 +94,9 @@ func sharedMaps() (map[string]reflect.Type, map[string]string) {
 			}
 		}
 	}
+	// a class registered through a pointer type (what reflect.TypeOf(&T{}) gives): whatever the
+	// decoder makes of such an entry, it must not rewrite it in the shared map
+	tm["ptr.Registered"] = reflect.TypeOf(&zoo.Inner{})
 	return tm, nm
 }
 
@@ -214,6 +217,14 @@ func buildCorpus(seed int64, env *Env, tm map[string]reflect.Type, nm map[string
 		b, _ := hspec.Encode(o, hspec.Canonical{}, hspec.EncOpts{})
 		corpus = append(corpus, corpusEntry{damaged: true, wire: b, what: "decode unknown qualified class"})
 	}
+	for k := 0; k < 12; k++ {
+		o := hspec.Object("ptr.Registered", []string{"a", "s"}, hspec.Int(int32(k)), hspec.String("r"))
+		if k%2 == 1 {
+			o = hspec.List("", o, o.Elems[1], o)
+		}
+		b, _ := hspec.Encode(o, hspec.Canonical{}, hspec.EncOpts{})
+		corpus = append(corpus, corpusEntry{wire: b, what: "decode class registered through a pointer type"})
+	}
 	for k := 0; k < 40; k++ {
 		g := make([]byte, 1+r.Intn(24))
 		r.Read(g)
@@ -284,6 +295,10 @@ func (c12) Run(c Case, env *Env) Result {
 	tm, nm = sharedMaps()
 	nmSnap := copyNames(nm)
 	tmLen := len(tm)
+	tmSnap := make(map[string]reflect.Type, len(tm))
+	for k, t := range tm {
+		tmSnap[k] = t
+	}
 	old := runtime.GOMAXPROCS(c.M)
 	defer runtime.GOMAXPROCS(old)
 	env.J(c.Idx, 1000000)
@@ -376,6 +391,12 @@ func (c12) Run(c Case, env *Env) Result {
 	// the shared complete maps must not have been written to
 	if len(tm) != tmLen || !sameNames(nm, nmSnap) {
 		env.Viol(&res, Violation{Class: "shared-map-written", Features: feats, Detail: fmt.Sprintf("shared maps changed during the concurrent phase: typMap %d->%d entries, nameMap %d->%d", tmLen, len(tm), len(nmSnap), len(nm)), Case: cc})
+	}
+	for k, t := range tmSnap {
+		if now, ok := tm[k]; !ok || now != t {
+			env.Viol(&res, Violation{Class: "shared-map-written", Features: feats, Detail: fmt.Sprintf("shared type map entry %q was %v before the concurrent phase and is %v after it", k, t, now), Case: cc})
+			break
+		}
 	}
 	if len(res.Samples) == 0 {
 		res.Sample(map[string]interface{}{"goroutines": c.N, "GOMAXPROCS": c.M, "instances": instKinds[c.K], "calls": calls, "overlapping": overlapped, "corpus": len(corpus), "example_entry": corpus[1].what + " -> " + corpus[1].expect})
